@@ -102,7 +102,9 @@ def units(tier, seed):
     if tier == "thorough":
         pool += ["y ~ f:g:x + (x|g)", "y ~ scale(x) + (scale(x) + f|g)", "y ~ (1|g) + (1|h) + (1|g:h)", "y ~ 0 + f + (0 + f:x|g) + (x|h)", "yc ~ f*x + (f|h)",
                  "prop(s, n) ~ f + (1|g)", "y ~ poly(x, 3) + (poly(x, 2)|g)", "y ~ (C(k)|g) + (x|C(k))"]
-    return [[{"design": d, "depth": depth, "tier": tier}] for d in pool]
+    # every design once more with process-wide settings changed that nothing may depend on (numpy print options incl. the legacy
+    # scalar formatting, pandas display options, object-typed text columns)
+    return [[{"design": d, "depth": depth, "tier": tier}] for d in pool] + [[{"design": d, "depth": 1, "tier": tier, "perturbed": True}] for d in pool]
 
 
 def expand(unit):
@@ -209,6 +211,10 @@ def check_case(case, acc):
     from fmc.core import exc_sig
 
     d, depth = case["design"], case["depth"]
+    if case.get("perturbed"):
+        from fmc import warmup
+
+        warmup.perturb_settings()
     formulae.config["EVAL_UNSEEN_CATEGORIES"] = "silent"
     df = train()
     problems = []
